@@ -8,7 +8,7 @@ VARIABLE hist
 GInit == Init /\ hist = <<>>
 H(r) == hist' = Append(hist, r)
 GNext ==
-  \/ \E k \in {"plain", "cb"} : Submit(k) /\ (IF m.lost THEN cnt.post < MaxPost ELSE cnt.sub < MaxCmd)
+  \/ \E k \in SubmitKinds : Submit(k) /\ (IF m.lost THEN cnt.post < MaxPost ELSE cnt.sub < MaxCmd)
                                   /\ H([a |-> "Submit", k |-> k])
   \/ \E ll \in Listeners, n \in EvNames : AddL(ll, n) /\ cnt.lop < MaxLop /\ ~m.lost /\ H([a |-> "AddL", l |-> ll, n |-> n])
   \/ \E ll \in Listeners, n \in EvNames : RemL(ll, n) /\ cnt.lop < MaxLop /\ ~m.lost /\ H([a |-> "RemL", l |-> ll, n |-> n])
